@@ -136,9 +136,9 @@ impl<TStorage: ?Sized + ReadableStorageTraits> ReadableStorageTraits
 
     fn size_key(&self, key: &StoreKey) -> Result<Option<u64>, StorageError> {
         let mut zip_archive = self.zip_archive.lock().unwrap();
-        let file = zip_archive.by_name(key.as_str());
+        let file = zip_archive.by_name(&self.key_str_to_zip_path(key.as_str()));
         match file {
-            Ok(file) => Ok(Some(file.compressed_size())),
+            Ok(file) => Ok(Some(file.size())),
             Err(err) => match err {
                 ZipError::FileNotFound => Ok(None),
                 _ => Err(StorageError::Other(err.to_string())),
